@@ -87,7 +87,8 @@ def is_masklike(t):
     return False
 
 
-CMP = {"lt", "gt", "lte", "gte", "eq", "noteq", "lte", "gte"}
+CMP = {"lt", "gt", "lte", "gte", "eq", "noteq", "greater", "less", "greater_equal", "less_equal", "equal", "not_equal",
+       "logical_xor", "isfinite", "isinf"}
 
 
 def is_boolish(t):
@@ -185,7 +186,10 @@ def fold(t):
 
 # ---------------------------------------------------------------- locality table (TRUSTED)
 # pointwise NumPy functions / methods: value at p depends on the arguments at p only
-POINTWISE = {"abs", "absolute", "sqrt", "astype", "copy", "array", "asarray", "ascontiguousarray", "minimum",
+POINTWISE = {"fabs", "square", "multiply", "add", "subtract", "divide", "true_divide", "power", "negative", "sign", "greater",
+             "less", "greater_equal", "less_equal", "equal", "not_equal", "logical_xor", "isfinite", "isinf", "rint", "ceil",
+             "trunc", "log", "log10", "sin", "cos", "arctan2", "hypot", "float32", "float64", "uint8", "nan_to_num",
+             "abs", "absolute", "sqrt", "astype", "copy", "array", "asarray", "ascontiguousarray", "minimum",
              "maximum", "clip", "exp", "exp2", "log2", "isnan", "real", "floor", "float", "bool", "int", "logical_or"}
 # pure functions with arbitrary dependence on their (array) arguments
 GLOBAL = {"table_lookup", "grey_erosion", "grey_dilation", "gaussian_filter", "label", "distance_transform_edt",
@@ -207,6 +211,42 @@ INLINE = {"grey_erosion", "grey_dilation", "opening", "closing", "hsobel", "vsob
 CONVERSIONS = {"astype", "asarray", "array", "ascontiguousarray", "copy"}
 SHAPE_ATTRS = {"shape", "dtype", "ndim", "size", "eps"}
 BINARY_STRUCTURE = "generate_binary_structure(2,2)"
+
+
+def kernel_shape(t):
+    """(h, w) of an image-independent constant known to be a literal h x w array (named locals keep this), else None"""
+    if t[0] == "Const" and t[1].startswith("kernel:"):
+        h, w = t[1][7:].split("x")
+        return int(h), int(w)
+    return None
+
+
+def is_number(t):
+    if t == FalseC:
+        return True
+    if t[0] != "Const":
+        return False
+    try:
+        float(t[1])
+        return True
+    except ValueError:
+        return False
+
+
+def literal_kernel(n):
+    """h, w of a literal rectangular list of lists of numbers, else None"""
+    if not (isinstance(n, (ast.List, ast.Tuple)) and n.elts and all(isinstance(r, (ast.List, ast.Tuple)) for r in n.elts)):
+        return None
+    ws = {len(r.elts) for r in n.elts}
+    if len(ws) != 1:
+        return None
+    for r in n.elts:
+        for e in r.elts:
+            if isinstance(e, ast.UnaryOp) and isinstance(e.op, (ast.USub, ast.UAdd)):
+                e = e.operand
+            if not (isinstance(e, ast.Constant) and isinstance(e.value, (int, float)) and not isinstance(e.value, bool)):
+                return None
+    return len(n.elts), ws.pop()
 
 
 def kernel_radius(node):
@@ -402,6 +442,9 @@ class Interp:
                 return FalseC
             return Const(repr(n.value))
         if isinstance(n, (ast.Tuple, ast.List)):
+            hw = literal_kernel(n)
+            if hw:
+                return Const("kernel:%dx%d" % hw)
             parts = [self.ev(e, env) for e in n.elts]
             if parts and all(isinstance(e, ast.Call) and isinstance(e.func, ast.Name) and e.func.id == "slice"
                              and len(e.args) == 2 and not e.keywords for e in n.elts) and all(is_const(p) for p in parts):
@@ -411,13 +454,17 @@ class Interp:
             t = self.ev(n.operand, env)
             if isinstance(n.op, (ast.Invert, ast.Not)):
                 return Not(t)
-            return Pw("neg", t)
+            return t if kernel_shape(t) else Pw("neg", t)
         if isinstance(n, ast.BinOp):
             ts = [self.ev(n.left, env), self.ev(n.right, env)]
             if any(t[0] == "Seq" for t in ts):
                 raise Unsupported("arithmetic on a python sequence of arrays")
-            return Pw(type(n.op).__name__.lower(), *[t for t in ts if not is_const(t)]) \
-                if not all(is_const(t) for t in ts) else Const("expr")
+            if all(is_const(t) for t in ts):
+                ks = [t for t in ts if kernel_shape(t)]
+                if ks and all(kernel_shape(t) == kernel_shape(ks[0]) or is_number(t) for t in ts):
+                    return ks[0]                            # a literal array scaled / shifted by numbers keeps its shape
+                return Const("expr")
+            return Pw(type(n.op).__name__.lower(), *[t for t in ts if not is_const(t)])
         if isinstance(n, ast.Compare):
             if len(n.ops) != 1:
                 raise Unsupported("chained comparison")
@@ -553,7 +600,7 @@ class Interp:
                 raise Unsupported("method on a python sequence")
             if f in ("astype", "copy"):
                 if is_const(r):
-                    return Const("method")
+                    return r if kernel_shape(r) else Const("method")
                 return r if (f == "astype" and is_masklike(r)) else Pw(f, r)
             if is_const(r) and not arr:
                 return Const("method")
@@ -569,8 +616,18 @@ class Interp:
             raise Unsupported("call of a local value")
         if isinstance(n.func, ast.Name) and f in INLINE and f in self.m.funcs:
             return self.inline(self.m.funcs[f], args, kws)
+        if f in ("zeros_like", "ones_like", "empty_like", "full_like") and args and not any(
+                not is_const(a) for a in args[1:] + list(kws.values())):
+            return Const(f + "(..)")                          # shape and dtype of the first argument only
         if f == "slice":
             return Const("slice") if not arr else self._unsupported("slice of arrays")
+        if f in ("binary_erosion", "convolve", "correlate"):
+            # keyword spellings of the positional arguments: structure= / weights=
+            kwname = "structure" if f == "binary_erosion" else "weights"
+            if len(n.args) == 1 and kwname in kws:
+                n = ast.Call(func=n.func, args=[n.args[0], [k.value for k in n.keywords if k.arg == kwname][0]],
+                             keywords=[k for k in n.keywords if k.arg != kwname])
+                args = args + [kws.pop(kwname)]
         if f == "binary_erosion":
             # binary_erosion(m, generate_binary_structure(2, 2), border_value=0): 3x3 erosion, False beyond the border
             if len(args) != 2 or args[1] != Const(BINARY_STRUCTURE):
@@ -582,11 +639,14 @@ class Interp:
         if not arr:
             if f == "generate_binary_structure":
                 return Const(ast.unparse(n).replace(" ", "").split(".")[-1])
+            if f in ("array", "asarray", "ascontiguousarray", "float32", "float64") and args and kernel_shape(args[0]):
+                return args[0]                               # np.array(literal kernel, dtype): same shape
             return Const(f + "(..)")                          # a function of image-independent values
         if f == "convolve" and len(n.args) >= 2:
             if not is_const(args[1]):
                 raise Unsupported("convolve with a data-dependent kernel")
-            r = kernel_radius(n.args[1])
+            hw = kernel_shape(args[1])
+            r = (hw[0] // 2) if (hw and hw[0] == hw[1] and hw[0] % 2 == 1) else None
             if r is not None and len(arr) == 1:
                 return Loc(r, "convolve%dx%d" % (2 * r + 1, 2 * r + 1), args[0])
             return Glob("convolve", *arr)                    # kernel of unknown size: no locality claimed
@@ -601,9 +661,15 @@ class Interp:
         if f in ("max", "min", "sum", "mean") and len(args) == 1 and args[0][0] == "Stack" and list(kws) == ["axis"] \
                 and isinstance(n.keywords[0].value, ast.Constant) and n.keywords[0].value.value == 0:
             return Pw(f + "_axis0", *args[0][1])              # reduction over the planes: pointwise in p
+        if f == "where" and len(args) == 3 and not kws and not any(a[0] == "Seq" for a in args):
+            if is_const(args[0]):
+                raise Unsupported("np.where on an image-independent condition")
+            return Select(args[1], args[0], args[2])           # np.where(c, a, b): a where c else b
         if f == "logical_and" and len(args) == 2 and not kws:
             return And(args[0], args[1])
         if f == "logical_not" and len(args) == 1:
+            return Not(args[0])
+        if f in ("invert", "bitwise_not") and len(args) == 1 and not kws and is_boolish(args[0]):
             return Not(args[0])
         if f in CONVERSIONS and len(arr) == 1 and is_masklike(args[0]) and f != "copy":
             return args[0]                                   # np.asarray(mask, bool), np.array(mask, np.uint8): truthiness kept
